@@ -43,6 +43,7 @@ type loopInfo struct {
 // Frame is the execution of one function body (top-level or inlined).
 type Frame struct {
 	vc            *VC
+	logRecv       []Val // receiver of the effectful call being logged (for evFrom)
 	fn            *ssa.Function
 	key           string
 	spec          *spec.FuncSpec
@@ -1053,7 +1054,7 @@ func (fr *Frame) callWrites(c *ssa.CallCommon, env map[ssa.Value]Val, fv map[*ss
 	if c.IsInvoke() {
 		if n, ok := types.Unalias(c.Value.Type()).(*types.Named); ok && n.Obj().Pkg() != nil {
 			key := shortPath(n.Obj().Pkg().Path()) + ":" + n.Obj().Name() + "." + c.Method.Name()
-			if !strings.HasPrefix(n.Obj().Pkg().Path(), RepoModule) {
+			if !inRepoPath(n.Obj().Pkg().Path()) {
 				key = n.Obj().Pkg().Path() + "." + n.Obj().Name() + "." + c.Method.Name()
 			}
 			if sp, ok := vc.W.Specs[key]; ok {
